@@ -822,6 +822,19 @@ fn enumerate_schemas_base(thorough: bool) -> Vec<Schema> {
         b.st("G-tag", Shape::Named, enc, None, vec![fld(0, FTy::U8), f1, fld(2, FTy::OptU8)]);
     }
 
+    // tagged optional fields followed by two or three more fields (running length accounting across fields)
+    for enc in [None, Some(Enc::Map)] {
+        let mut f0 = fld(0, FTy::OptU8);
+        f0.tag = Some(1000);
+        b.st("G-tag", Shape::Named, enc, None, vec![f0.clone(), fld(1, FTy::OptU8), fld(2, FTy::OptU8)]);
+        let mut f2 = fld(2, FTy::OptU8);
+        f2.tag = Some(24);
+        b.st("G-tag", Shape::Named, enc, None, vec![f0.clone(), fld(1, FTy::U8), f2.clone(), fld(3, FTy::U8)]);
+        let mut f1 = fld(1, FTy::OptU8);
+        f1.tag = Some(65536);
+        b.st("G-tag", Shape::Named, enc, None, vec![f0, f1, f2, fld(4, FTy::OptU8)]);
+    }
+
     // ---- G-twin: the derive macros have separate code paths for named structs, tuple structs and enum
     // variants (named and tuple); every tagged layout and every mixed-optional layout is replicated in
     // all of them
@@ -982,6 +995,17 @@ fn ty_src(ty: &FTy, all: &[Schema]) -> String {
     }
 }
 
+/// The field type as written in the source: `Option` is spelled with a path in two of the three
+/// attribute styles (the macros recognise optional fields syntactically).
+fn ty_spelled(ty: &FTy, all: &[Schema], style: usize) -> String {
+    let t = ty_src(ty, all);
+    match (style, t.strip_prefix("Option<")) {
+        (1, Some(rest)) => format!("std::option::Option<{}", rest),
+        (2, Some(rest)) => format!("::core::option::Option<{}", rest),
+        _ => t,
+    }
+}
+
 /// How a schema's type is written at a use site.
 pub fn type_use(s: &Schema, all: &[Schema], lt: &str) -> String {
     let mut args = Vec::new();
@@ -1060,8 +1084,8 @@ fn fields_src(fields: &[FieldS], shape: Shape, all: &[Schema], public: bool, sty
     let vis = if public { "pub " } else { "" };
     match shape {
         Shape::Unit => String::new(),
-        Shape::Named => format!(" {{ {} }}", fields.iter().enumerate().map(|(k, f)| format!("{}{}f{}: {}", field_attrs(f, style), vis, k, if f.skip { "u8".to_string() } else { ty_src(&f.ty, all) })).collect::<Vec<_>>().join(", ")),
-        Shape::Tuple => format!("({})", fields.iter().map(|f| format!("{}{}{}", field_attrs(f, style), vis, if f.skip { "u8".to_string() } else { ty_src(&f.ty, all) })).collect::<Vec<_>>().join(", ")),
+        Shape::Named => format!(" {{ {} }}", fields.iter().enumerate().map(|(k, f)| format!("{}{}f{}: {}", field_attrs(f, style), vis, k, if f.skip { "u8".to_string() } else { ty_spelled(&f.ty, all, style) })).collect::<Vec<_>>().join(", ")),
+        Shape::Tuple => format!("({})", fields.iter().map(|f| format!("{}{}{}", field_attrs(f, style), vis, if f.skip { "u8".to_string() } else { ty_spelled(&f.ty, all, style) })).collect::<Vec<_>>().join(", ")),
     }
 }
 
@@ -1311,6 +1335,12 @@ fn compat_family(b: &mut Builder) -> Vec<Pair> {
         (FTy::OptNested(e0), None, "Option<enum>"),
         (FTy::OptNested(i0), None, "Option<index_only enum>"),
         (FTy::NilU8Fns, None, "nil-aware custom codec"),
+        (FTy::NilU8FnsB, None, "nil-aware custom codec (attribute order B)"),
+        (FTy::NilU8FnsC, None, "nil-aware custom codec (attribute order C)"),
+        (FTy::NilU8FnsD, None, "nil-aware custom codec (attribute order D)"),
+        (FTy::NilU8With, None, "nil-aware codec module (with + has_nil)"),
+        (FTy::OptByteVec, None, "Option<ByteVec>"),
+        (FTy::OptStr, Some(300), "tagged Option<String>"),
         (FTy::OptIndefArr, None, "Option<indefinite array type>"),
     ];
     for enc in [None, Some(Enc::Map)] {
